@@ -1,5 +1,11 @@
 """Per-property manifest texts."""
 CHECKS = {
+    "C05": {
+        "text": "The multi-domain semantics is part of the specification: ID.tla derives the selection diagram (TransportNodes) and TV.tla builds, for every recorded problem, a family of generic SCMs in which source domain k shares every mechanism with the target except at the transport nodes; PP[pi*] terms are evaluated in the target, PP[pi_k][Z'] terms in domain k under do(Z'). Every estimand identify_target_outcomes returns on TLC-generated problems (graph x query x 0-3 domains (Z_k, W_k)) is validated by TLC against P*(y|do x) on all assignments; without a source domain the outcome class must agree with the ID oracle (TianOK); exceptions and mutation of the caller's graph are rejected.",
+        "ref": "DESIGN.md section 4/C05",
+        "note": "3-node ADMGs exhaustively over graphs and queries with seeded domain configurations, seeded 4-node problems. No reference TRSO machine yet (conformance is against the semantics directly); no completeness claim beyond the no-domain case.",
+        "technique": "TLA+ specification of multi-domain SCM semantics and selection diagrams; TLC-generated problems; trace validation of implementation outputs by TLC",
+    },
     "C16": {
         "text": "LVDag.tla defines tagged DAGs, the ADMG<->LV-DAG conversions, the latent projection by its path definition and Evans' four rules; LVMachine.tla applies any applicable rule in any order and TLC model-checks, on every tagged DAG with <= 4 nodes and every ADMG <= 3 nodes with extra latents, that the projection is invariant, observed nodes are kept, a fully simplified DAG reads as the projection of the start, and m-separation in the projection equals d-separation in the DAG. TLC prints every start state with its projection; simplify_latent_dag (observed kept, idempotent, read-off ADMG = projection), evans_simplify(G, latents=L) and the ADMG->LV-DAG->ADMG round trip (isolated nodes included) are replayed under 2-3 insertion orders and compared.",
         "ref": "DESIGN.md section 4/C16",
@@ -57,7 +63,7 @@ CHECKS = {
     "C06": {
         "text": "The vocabulary predicates are part of the specification (ID.tla: ObsOnly) and invariants of the reference machines (IDMachine: Vocab, model-checked on all 3-node inputs). Every estimand returned by the real ID and IDC on the TLC-generated query families is serialised and TLC evaluates the predicate on it (TV.tla kind vocab); estimands that mention names outside the graph cannot be serialised and are reported as vocabulary failures.",
         "ref": "DESIGN.md section 4/C06",
-        "note": "Currently covers ID and IDC (3-node exhaustive, 4-node seeded); the transport / ID* / IDC* parts join as their drivers are added (evidence lists estimands inspected per algorithm).",
+        "note": "Covers ID, IDC (3-node exhaustive, 4-node seeded) and TRSO (TransportVocab: population-tagged terms only, target terms observational, domain terms with one common subscript set inside Z_k, never a selection node); the ID* / IDC* parts join when their drivers exist (evidence lists estimands inspected per algorithm).",
         "technique": "TLA+ predicates as invariants of the reference machines (TLC) and as trace-validation clauses on implementation outputs",
     },
     "C14": {
